@@ -14,8 +14,8 @@ NAMES = ["x", "cx", "h", "s", "cp", "swap", "barrier"]
 META = {
     "rule": "states = (a) every (a, b, injective qubit map) with a from the pool of circuits of length <= 1 and b of length <= 2 over "
             "{x,cx,h,s,cp,swap,barrier} on 1-3 qubits, for append_circuit / + / += ; (b) repeat(k) k=1..3, copy(), copy(vanilla=True) on "
-            "every pool circuit; (c) remove_identities on every gate sequence up to length L over an alphabet of SHARED gate objects "
-            "(so adjacent identical pairs exist) incl. barriers; (d) qft(l) followed by iqft(l) for every injective qubit list l on <= 4 qubits. "
+            "every pool circuit and every circuit of <= 2 MCtrl-built multi-controlled X / Z gates on 3 qubits; (c) remove_identities on every gate sequence up to length L over an alphabet of SHARED gate objects "
+            "(so adjacent identical pairs exist) incl. barriers and multi-controlled X / Z built through MCtrl on the same qubits; (d) qft(l) followed by iqft(l) for every injective qubit list l on <= 4 qubits. "
             "Oracle: state-vector unitaries: U(b on map).U(a), U(b).U(a), U(a)^k, U(a), unchanged, identity; deep fingerprints of every operand "
             "are compared before/after the operation AND after mutating the result (appending a gate, overwriting a qubit index in place). "
             "Non-trivial = composition where b has a multi-qubit gate or the map is not the identity; distinct = distinct (operation, operands) texts.",
@@ -28,8 +28,8 @@ META = {
 PHASE = math.pi / 4
 
 
-def pool(n, L):
-    A = circs.alphabet(n, NAMES, phases=(PHASE,))
+def pool(n, L, names=None):
+    A = circs.alphabet(n, names or NAMES, phases=(PHASE,))
     out = []
     for l in range(L + 1):
         for idxs in itertools.product(range(len(A)), repeat=l):
@@ -58,6 +58,8 @@ def shards(tier):
             out.append({"k": "compose", "na": na, "La": La, "ia": ia})
     for n in (1, 2, 3):
         out.append({"k": "unary", "n": n, "L": 2})
+    # copies of multi-controlled gates built through MCtrl (same shape, different inner gate), one after the other in one process
+    out.append({"k": "unary", "n": 3, "L": 2, "names": ["mctrlx", "mcz"]})
     ri = [(2, 4), (3, 3)] if tier == "quick" else [(2, 5), (3, 4)]
     for n, L in ri:
         A = ri_alphabet(n)
@@ -198,7 +200,7 @@ def run_unary(case, bad):
     states = rows = nontriv = 0
     for kind in ("plain", "enhanced"):
       n = n0 if kind == "plain" else n0 + 1
-      for seq in pool(n0, case["L"]):
+      for seq in pool(n0, case["L"], case.get("names")):
           desc = "%s circuit a=%s (n=%d)" % (kind, seq, n)
           states += 1
           if any(len(l) > 2 for l in seq):
